@@ -282,7 +282,7 @@ for gi, (reps, behs, what) in enumerate(groups):
             unreproduced.append('%s (%s, behaviour %d step %d)' % (sig, what, v['behaviour'], v['step']))
         if not reported:
             done()
-            c.inconclusive('violation %s (%s) not reproduced in %d attempts on different instances' % (sig, what, len(vs)))
+            c.unreproduced('violation %s (%s) not reproduced in %d attempts on different instances' % (sig, what, len(vs)))
     samples += res.get('samples', [])[:1]
 
 # ---- 4. binding self-test: corrupt one replay expectation, the harness must reject it ----
